@@ -210,12 +210,13 @@ static void hook_send(size_t idx) {
 }
 
 /* the application sends a CON GET /<style>; returns 0 when skipped */
+static int app_method = COAP_REQUEST_CODE_GET;   /* H<n> in exc, H <n> in exe */
 static int app_send(int sty, int ok) {
   if (cli->sendqueue != NULL || cs->delayqueue != NULL) {
     out_add("skip");
     return 0;
   }
-  coap_pdu_t *p = coap_new_pdu(COAP_MESSAGE_CON, COAP_REQUEST_CODE_GET, cs);
+  coap_pdu_t *p = coap_new_pdu(COAP_MESSAGE_CON, (coap_pdu_code_t)app_method, cs);
   uint8_t tok[8];
   size_t tl;
   coap_session_new_token(cs, &tl, tok);
@@ -300,10 +301,12 @@ static void do_exc(void) {
   vn_prng_seed(11);
   client_setup(&peer, maxr, mid0, tok0);
   use_tok_verdict = 0;
+  app_method = COAP_REQUEST_CODE_GET;
   sb_reset(&steps); sb_reset(&times); nsteps = 0;
   for (int i = 4; i < vntok; i++) {
     const char *a = vtok[i];
     char in[128];
+    if (a[0] == 'H') { app_method = atoi(a + 1); continue; }   /* method of the following sends */
     step_begin();
     if (a[0] == 'S') {
       int sty = atoi(a + 1);
@@ -633,6 +636,7 @@ static void do_exe(void) {
   int nq = 0, qs[MAXREQ], qok[MAXREQ];
   coap_tick_t qthink[MAXREQ];
   kind_real = 1; adelay = 300; dflt_delay = 0; srv_nstart = 0; smid0 = -1; smid_set = 0;
+  app_method = COAP_REQUEST_CODE_GET;
   nfates = 0; fates = NULL;
   int i = 1;
   while (i < vntok) {
@@ -643,6 +647,7 @@ static void do_exe(void) {
     else if (!strcmp(a, "A") && i + 1 < vntok) { adelay = (coap_tick_t)atoll(vtok[i + 1]); i += 2; }
     else if (!strcmp(a, "E") && i + 1 < vntok) { dflt_delay = (coap_tick_t)atoll(vtok[i + 1]); i += 2; }
     else if (!strcmp(a, "N") && i + 1 < vntok) { srv_nstart = atoi(vtok[i + 1]); i += 2; }
+    else if (!strcmp(a, "H") && i + 1 < vntok) { app_method = atoi(vtok[i + 1]); i += 2; }
     else if (!strcmp(a, "Q")) {
       i++;
       while (i < vntok && vtok[i][0] >= '0' && vtok[i][0] <= '9' && nq < MAXREQ) {
@@ -670,7 +675,8 @@ static void do_exe(void) {
       char nm[2] = { style_chars[k], 0 };
       coap_resource_t *r = coap_resource_init(coap_new_str_const((const uint8_t *)nm, 1),
                                               COAP_RESOURCE_FLAGS_RELEASE_URI);
-      coap_register_request_handler(r, COAP_REQUEST_GET, on_get);
+      for (int mth = COAP_REQUEST_GET; mth <= COAP_REQUEST_IPATCH; mth++)
+        coap_register_request_handler(r, (coap_request_t)mth, on_get);
       coap_add_resource(srv, r);
     }
     coap_address_copy(&server, &ep->bind_addr);
